@@ -10,7 +10,7 @@
    heights started (successfully) or learned decided since the process started, beginning with the
    height the process loaded from the store. *)
 From Coq Require Import List NArith Bool.
-From SSV Require Import Ctrl.Model Ctrl.Proofs Ctrl.Proofs2 Ctrl.Proofs3 Ctrl.OldF5.
+From SSV Require Import Ctrl.Model Ctrl.Proofs Ctrl.Proofs2 Ctrl.Proofs3 Ctrl.OldF5 Ctrl.Refused.
 Import ListNotations.
 Local Open Scope N_scope.
 
@@ -181,4 +181,38 @@ Example C15_persistence_exceptions_are_real :
   snd (step (run (init fx_light) ex9) (OStart 9)) = SPassed /\
   results (init fx_light) [OStart 0; OStart 0; OLocal 0 [1; 2; 3]; ORestart; OStart 0]
     = [SOk; SExists; LDone true; RDone; SOk].
+Proof. vm_compute. repeat split; reflexivity. Qed.
+
+(* Histories in which the database refuses the writes of some decided messages (XDecidedRefused: the
+   failing SaveInstance is only logged).  The in-process half of the property does not depend on the
+   store: the message still raises the controller height, nothing started or learned as decided in this
+   process life is started again, the store is untouched by the refused message and never weakened. *)
+Theorem C15_no_rerun_with_refused_writes : forall f xs s g slot s',
+  xgrun (init f, []) xs = (s, g) ->
+  step s (OStart slot) = (s', SOk) ->
+  forall h, In h g -> h < slot \/ slot = 0.
+Proof. exact no_rerun_refused. Qed.
+Print Assumptions C15_no_rerun_with_refused_writes.
+
+Theorem C15_refused_decided_still_raises_height : forall s h m l s' r,
+  cinv (ct s) (store s) ->
+  xstep s (XDecidedRefused h m true l) = (s', r) ->
+  height (ct s') = N.max (height (ct s)) h /\ store s' = store s /\ saved (ct s') = saved (ct s).
+Proof. exact refused_decided_effect. Qed.
+Print Assumptions C15_refused_decided_still_raises_height.
+
+Theorem C15_store_monotone_with_refused_writes : forall f xs s x s' r,
+  fixed f = true -> xrun (init f) xs = s -> xstep s x = (s', r) ->
+  omono (highest (store s)) (highest (store s')).
+Proof. exact store_monotone_refused. Qed.
+Print Assumptions C15_store_monotone_with_refused_writes.
+
+Theorem C15_refusal_free_histories_are_the_model : forall ops s, xrun s (map XOp ops) = run s ops.
+Proof. exact xrun_embeds. Qed.
+Print Assumptions C15_refusal_free_histories_are_the_model.
+
+(* duty 10 running, decided(12) arrives while writes are refused: height 12, nothing stored, duty 11 refused *)
+Example C15_refused_write_example :
+  let s := xrun (init fx_light) [XOp (OStart 10); XDecidedRefused 12 (c 1 [1; 2; 3]) true true] in
+  height (ct s) = 12 /\ highest (store s) = None /\ snd (step s (OStart 11)) = SPassed.
 Proof. vm_compute. repeat split; reflexivity. Qed.
